@@ -148,6 +148,9 @@ class StreamingControl(Obligation):
 def native_replay(ob_id, v):
     if ob_id == 'C17.d/e' and v['label'] == 'rejected request changed nothing':
         return {'judge': 'streaming_bad_modify', 'scenario': 'streaming_bad_modify_after_ack'}
+    if ob_id.startswith('C17.f-accepted-names'):
+        from props.C18 import native_replay as names_replay
+        return names_replay('C18.a-' + ob_id.rsplit('-', 1)[1], v)
     return None
 
 
@@ -158,7 +161,31 @@ def obligations(ctx, cfg):
             ParserWrapper(ctx, 'parse_topic_name', 22 if q else 30),
             ParserWrapper(ctx, 'parse_subscription_name', 29 if q else 37),
             ParserWrapper(ctx, 'parse_project_id', cap),
-            StreamingControl(ctx, 2 if q else 3), _create_numbers()]
+            StreamingControl(ctx, 2 if q else 3), _create_numbers()] + _name_shapes(ctx, q)
+
+
+def _name_shapes(ctx, q):
+    # a malformed resource name must be rejected: what the two name parsers accept is decided byte by byte (the obligations of C18.a)
+    from props.C18 import ParseShape
+    out = []
+    for kind in ('topic', 'subscription'):
+        ob = ParseShape(ctx, kind, (22 if q else 32) + (7 if kind == 'subscription' else 0))
+        ob.id = 'C17.f-accepted-names-%s' % kind
+        out.append(ob)
+    # the other request fields with a validity rule: deadline seconds (negative -> INVALID_ARGUMENT) and paging (size, token)
+    from props.C05 import C05a
+    from props.C13 import C13parse
+    a, b = C05a(ctx), C13parse()
+    a.id, b.id = 'C17.g-deadline-seconds', 'C17.g-paging'
+    # the handlers that take lists of ack ids: one malformed element rejects the request before any effect
+    from props.C10 import Handler, req_ack, req_modack, bad_ack, bad_modack
+    h1 = Handler(ctx, 'subscriber', 'acknowledge', req_ack, extra_invalid=bad_ack)
+    h2 = Handler(ctx, 'subscriber', 'modify_ack_deadline', req_modack, extra_invalid=bad_modack)
+    h1.id, h2.id = 'C17.h-acknowledge-handler', 'C17.h-modify_ack_deadline-handler'
+    from props.C14 import PushConfigParse
+    pc = PushConfigParse()
+    pc.id = 'C17.i-push-endpoint'
+    return out + [a, b, h1, h2, pc]
 
 
 def _create_numbers():
